@@ -612,7 +612,7 @@ func main() {
 			RunPath: func(p []uint16) (uint64, explore.Status) { return runPlacement(proto, p) }}
 	}
 	if r.Replay != "" {
-		r.Fault("replay: see detail.case; not implemented")
+		r.ReplayBySearch()
 	}
 	if idx, n, arg, ok := r.Worker(); ok {
 		r.Watchdog(60 * time.Second)
